@@ -14,7 +14,7 @@ package cluster
 // C19: a gossip message for an unknown key or that does not decode touches no state; otherwise it is merged into
 // exactly the state registered under its key.
 //@ func (*delegate).NotifyMsg
-//@   props C19
+//@   props C19 C09 C10
 //@   nosafe
 //@   at call State).Merge assert [decoded-first] called("proto.Unmarshal") && ret("proto.Unmarshal") == nil
 //@   ensures [undecodable-touches-nothing] called("proto.Unmarshal") && ret("proto.Unmarshal") != nil ==> !called("State).Merge")
@@ -26,7 +26,7 @@ package cluster
 // C19: full-state exchange. Every part whose key is known is handed to its state, whatever happens to the other
 // parts: unknown keys and parts that fail to merge are skipped, never a reason to stop.
 //@ func (*delegate).MergeRemoteState
-//@   props C19
+//@   props C19 C09 C10
 //@   nosafe
 //@   ensures [no-part-left-behind] called("proto.Unmarshal") && ret("proto.Unmarshal") == nil ==> rangeindex1 + 1 >= len(fs.Parts)
 //@   ensures [undecodable-touches-nothing] called("proto.Unmarshal") && ret("proto.Unmarshal") != nil ==> !called("State).Merge")
@@ -173,3 +173,25 @@ package cluster
 //@   at call TransmitLimitedQueue).GetBroadcasts assert [memberlist's-budget-is-the-queue's-budget] arg0 == d.bcast && arg1 == overhead && arg2 == limit
 //@   ensures [what-the-queue-gives-is-handed-on] count("TransmitLimitedQueue).GetBroadcasts") == 1 && result == ret("TransmitLimitedQueue).GetBroadcasts")
 //@   loop 1 invariant count("TransmitLimitedQueue).GetBroadcasts") == 1 && msgs == ret("TransmitLimitedQueue).GetBroadcasts")
+
+// ---- C19: the TLS transport's connection pool. A pooled connection is handed out only while it is alive; otherwise a
+// new connection is dialled, takes the pooled one's place, and is the one returned - so one broken connection never
+// keeps a reachable peer cut off. A closed pool and a failed dial are errors.
+//@ func (*connectionPool).borrowConnection
+//@   props C19
+//@   requires pool != nil
+//@   after call errors.New assume res0 != nil
+//@   after call dialTLSConn assume (res1 == nil) == (res0 != nil)
+//@   after call Get[ assume res1 ==> res0 != nil
+//@   ensures [monitor-lock-released] count("Mutex).Lock") == 1 && count("Mutex).Unlock") == 1
+//@   ensures [error-or-connection] (result1 == nil) == (result0 != nil)
+//@   ensures [closed-pool-is-an-error] old(pool.cache) == nil ==> result1 != nil && !called("dialTLSConn")
+//@   ensures [pooled-connection-only-while-alive] result1 == nil && !called("dialTLSConn") ==> called("tlsConn).alive") && ret("tlsConn).alive") && result0 == ret("Get[")
+//@   ensures [a-dead-or-missing-connection-is-redialled] old(pool.cache) != nil && !(ret1("Get[") && called("tlsConn).alive") && ret("tlsConn).alive")) ==> called("dialTLSConn")
+//@   ensures [dial-error-is-reported] called("dialTLSConn") && ret1("dialTLSConn") != nil ==> result1 == ret1("dialTLSConn") && !called("Add[")
+//@   ensures [the-new-connection-is-returned-and-pooled] called("dialTLSConn") && ret1("dialTLSConn") == nil ==> result0 == ret("dialTLSConn") && result1 == nil && count("Add[") == 1
+//@   at call Add[ assert [replaces-the-pooled-connection-under-the-same-key-under-lock] arg1 == ret("fmt.Sprintf") && arg2 == ret("dialTLSConn") && count("Mutex).Unlock") == 0
+//@   at call Get[ assert [looked-up-under-the-key-under-lock] arg1 == ret("fmt.Sprintf") && count("Mutex).Lock") == 1 && count("Mutex).Unlock") == 0
+//@   at call dialTLSConn assert [dials-the-peer-asked-for] arg0 == addr && arg1 == timeout && arg2 == pool.tlsConfig
+//@   noeffect tlsConn).alive dialTLSConn
+//@   assigns nothing
